@@ -356,7 +356,14 @@ class World(object):
         self.greenlets.append(g)
 
     def fake_uuid4(self):
-        return types.SimpleNamespace(hex='%032x' % (next(self._uuid_counter) + 0xa0))
+        # uuid_repeat_at = k: the k-th answer (counting from 0) repeats the one before it -- a collision with a live id,
+        # which the stores guard against by drawing again
+        k = getattr(self, '_uuid_calls', 0)
+        self._uuid_calls = k + 1
+        if k and k == getattr(self, 'uuid_repeat_at', None):
+            return types.SimpleNamespace(hex=self._uuid_last)
+        self._uuid_last = '%032x' % (next(self._uuid_counter) + 0xa0)
+        return types.SimpleNamespace(hex=self._uuid_last)
 
     def patch(self, module, name, value):
         mod = module if not isinstance(module, str) else sys.modules[module]
